@@ -202,7 +202,7 @@ mut("formatter_literal_only_after_separator", ["C14"], "bnd/c14/formatter-keeps-
 # ---- C01 (node construction)
 mut("operator_node_built_as_fast_operator", ["C01"], "parser.buildParentNode/post/operator-node",
     [("parser.go", "\t\tnode: &node{\n\t\t\tflag:     operator,\n\t\t\tvalue:    car.val,", "\t\tnode: &node{\n\t\t\tflag:     fastOperator,\n\t\t\tvalue:    car.val,")], "operator nodes are born as fast operators whatever their operands")
-mut("end_if_marker_shares_condition_closure", ["C01"], "parser.buildParentNode/post/end-if-marker",
+mut("end_if_marker_shares_condition_closure", ["C01"], "fi-always-jumps",
     [("parser.go", "\t\t\t\toperator: func(_ *Ctx, _ []Value) (Value, error) {\n\t\t\t\t\treturn true, nil\n\t\t\t\t},", "\t\t\t\toperator: func(_ *Ctx, ps []Value) (Value, error) {\n\t\t\t\t\treturn len(ps) < 2, nil\n\t\t\t\t},")], "the end-if marker's jump depends on its arguments")
 # ---- probes of mechanisms that only the bounded tier covers
 mut("reduce_nesting_merges_any_bool_operator", ["C02"], "bnd/",
